@@ -954,7 +954,7 @@ pub fn run_c26(ctx: &mut Ctx) {
         AppendArchive phase + finalize) of length <= 60 over 2-7 names in 1-3 hash-collision groups \
         (names resolved against the archive's hash key), Meta::SIZE in {0,1,4,32}, data sizes at the \
         page boundaries of 1-4 pages (exact fill, +1, -1, minimal), 0, 1; thorough adds all sequences \
-        of length <= 4 over 2 names x 3 sizes (colliding and distinct); after every operation the real \
+        of length <= 4 over 2 colliding names x 3 sizes (and of length <= 3 over 2 distinct names); after every operation the real \
         file is parsed and compared with the model's layout; non-trivial = case exercising free-space \
         reuse / coalescing / truncation; distinct by the set of code-path labels".into();
     let dir = work_dir();
@@ -979,7 +979,7 @@ pub fn run_c26(ctx: &mut Ctx) {
             }
             else {
                 res.extend(exhaustive(true, 4));
-                res.extend(exhaustive(false, 4));
+                res.extend(exhaustive(false, 3));
             }
             res
         }
